@@ -290,6 +290,44 @@ def _brief(v):
 # --------------------------------------------------------------------------------------------------
 
 
+class Blind:
+    """A value that its repr does not tell apart from its siblings (equality, hash and pickle go by content)."""
+
+    __slots__ = ('v',)
+
+    def __init__(self, v):
+        self.v = v
+
+    def __repr__(self):
+        return 'Blind'
+
+    def __eq__(self, other):
+        return isinstance(other, Blind) and other.v == self.v
+
+    def __hash__(self):
+        return hash(('Blind', self.v))
+
+    def __reduce__(self):
+        return (Blind, (self.v,))
+
+
+def blind_fn(v):
+    """The same as a closure: every one of them is a function called `tag` (a builder prints callables by __name__)."""
+
+    def tag():
+        return v
+
+    return tag
+
+
+def blind(v, how):
+    return Blind(v) if how == 'obj' else blind_fn(v) if how == 'fn' else v
+
+
+def unblind(v):
+    return v.v if isinstance(v, Blind) else v() if callable(v) else v
+
+
 FAIL = {'tag': None}  # in-process failure injection: the next `apply` of the actor with this tag raises once
 
 
@@ -301,7 +339,7 @@ class Stateless(flow.Actor):
     """`apply(*args)` -> ('apply', tag, state, args); every invocation is recorded."""
 
     def __init__(self, tag, rec=None):
-        self._tag = tag
+        self._tag = unblind(tag)
         self._rec = rec
         self._state = None
 
@@ -419,12 +457,18 @@ def signature_of(cls_name):
 assert HyAS.is_stateful() and not HyA.is_stateful()
 
 
-def make_builder(tag, rec, stateful, bspec):
-    """The real `flow.Spec` of a tag (TypeError: `Spec.__new__` refuses the arguments)."""
+def make_builder(tag, rec, stateful, bspec, how=None):
+    """The real `flow.Spec` of a tag (TypeError: `Spec.__new__` refuses the arguments). `how` ('obj' | 'fn'): the tag
+    is handed over as a value that the printed form of the builder does not show - builders of different tags (different
+    behaviour) then print the same."""
     if bspec is None:
-        return (Stateful if stateful else Stateless).builder(tag=tag, rec=rec)
+        return (Stateful if stateful else Stateless).builder(tag=blind(tag, how), rec=rec)
     cls = HYPER[bspec['cls']][1 if stateful else 0]
-    return cls.builder(tag, rec, *bspec.get('args', ()), **bspec.get('kw', {}))
+    return cls.builder(blind(tag, how), rec, *bspec.get('args', ()), **bspec.get('kw', {}))
+
+
+def builder_tag(builder):
+    return unblind(builder.args[0] if builder.args else builder.kwargs['tag'])
 
 # --------------------------------------------------------------------------------------------------
 # assets: the real asset.State over a recording fake generation
@@ -512,9 +556,13 @@ def materialise(spec, rec):
         kind = ins[0]
         if kind == 'functor':
             _, tag, action, npre = ins
+            how = (spec.get('blind') or {}).get(str(tag))
             if tag not in builders or spec.get('fresh_builders'):
-                builders[tag] = make_builder(tag, rec, stateful[tag], (spec.get('builders') or {}).get(str(tag)))
-            f = flow.Functor(builders[tag], flow.Apply() if action == 'apply' else flow.Train())
+                builders[tag] = make_builder(tag, rec, stateful[tag], (spec.get('builders') or {}).get(str(tag)), how)
+            builder = builders[tag]
+            if str(key) in (spec.get('alt') or {}):  # this functor is built by a builder of its own (same tag)
+                builder = make_builder(tag, rec, stateful[tag], spec['alt'][str(key)], how)
+            f = flow.Functor(builder, flow.Apply() if action == 'apply' else flow.Train())
             for _ in range(npre):
                 f = f.preset_state()
             obj = f
@@ -581,13 +629,14 @@ def _quiet_unraisable(unraisable):
     sys.__unraisablehook__(unraisable)
 
 
-def build_segment(seg, rec, builders):
+def build_segment(seg, rec, builders, blinds=None):
     """(flow.Segment, asset.State | None, {id: node}) over fresh real workers."""
     nodes: dict = {}
     stateful = set(seg.get('stateful', ()))
     for nid, tag, szin, szout, fork in seg['nodes']:
         if fork is None:
-            nodes[nid] = flow.Worker(make_builder(tag, rec, tag in stateful, (builders or {}).get(str(tag))), szin, szout)
+            nodes[nid] = flow.Worker(make_builder(tag, rec, tag in stateful, (builders or {}).get(str(tag)),
+                                                  (blinds or {}).get(str(tag))), szin, szout)
         else:
             nodes[nid] = nodes[fork].fork()
     for nid, feat, lab in seg.get('train', ()):
@@ -599,13 +648,13 @@ def build_segment(seg, rec, builders):
     return flow.Segment(nodes[seg['head']], nodes[seg['tail']]), assets, nodes
 
 
-def describe_segment(seg, builders):
+def describe_segment(seg, builders, blinds=None):
     """Build the segment, compile it with the real compiler and describe the table as a spec (syms, assets);
     None when the graph API / the compiler refuses it or emits something the spec vocabulary does not have."""
     sys.unraisablehook = _quiet_unraisable
     with isolated():
         try:
-            segment, assets, nodes = build_segment(seg, None, builders)
+            segment, assets, nodes = build_segment(seg, None, builders, blinds)
             symbols = flow.compile(segment, assets)
         except Exception:  # pylint: disable=broad-except
             return None
@@ -626,7 +675,7 @@ def describe_segment(seg, builders):
                     chain, action = chain + 1, action._action  # pylint: disable=protected-access
                 if not isinstance(action, (flow.Apply, flow.Train)):
                     return None
-                ins = ['functor', i.builder.args[0] if i.builder.args else i.builder.kwargs['tag'],
+                ins = ['functor', builder_tag(i.builder),
                        'apply' if isinstance(action, flow.Apply) else 'train', chain]
             elif isinstance(i, flow.Getter):
                 ins = ['getter', i.index]
@@ -780,7 +829,7 @@ def _run_backend(spec, backend, rec):
     segment = assets = None
     try:
         if spec.get('segment'):
-            segment, assets, _ = build_segment(spec['segment'], rec, spec.get('builders'))
+            segment, assets, _ = build_segment(spec['segment'], rec, spec.get('builders'), spec.get('blind'))
             if backend in ('ref', 'ref-shipped', 'pyfunc-call', 'pyfunc-recover'):
                 symbols = flow.compile(segment, assets)
         else:
@@ -793,6 +842,12 @@ def _run_backend(spec, backend, rec):
         return {'backend': backend, 'status': 'unbuildable', 'error': f'TypeError: {e}', 'records': []}
     try:
         if backend == 'ref':
+            if segment is None:
+                # the name dask gives the pure task of every instruction object (content part: `normalize_token`)
+                try:
+                    out['names'] = {str(k): dask.delayed(obj, pure=True, traverse=False).key for k, obj in instr.items()}
+                except Exception as e:  # pylint: disable=broad-except
+                    out['names'] = {'error': f'{type(e).__name__}: {e}'[:120]}
             reference(symbols)
         elif backend == 'ref-shipped':
             reference(symbols, shipped=True)
